@@ -65,7 +65,7 @@ add('C08', ['C08Block', 'C08Inline', 'C08', 'C08Src'], PIPE,
 add('C09', ['C09', 'C09Doc', 'C09X'], ['corr.normalize', 'corr.pipeline', 'corr.pipelinex'],
     'Lean 4 proofs about the model of NormalizeWhitespace (line endings, tabs, STX/ETX, whitespace-only lines, leading/trailing blank lines), stated for the step list regenerated from the source; unit correspondence for tab lengths 0-8',
     'PARTIAL: the normalisation theorems are full; the lift "the rest of convert reads only the normalised text" is by construction of the pipeline model and end-to-end correspondence. F-C09-1 (whitespace-only first line) was repaired (fix: commit a0e7e3c); the first-line theorems are now unconditional.')
-add('C10', ['C10', 'C10b', 'C10c', 'C10X', 'C10XPost', 'C10XTree', 'C10XToc', 'C10XTocAttr', 'C10XLate', 'C10XRaw', 'C10XC', 'C10XBlock', 'C10XCAll', 'C10XFn', 'C10XFnLeak', 'C10XAll', 'C10XFenceBlock', 'C09'], PIPE + ['corr.pipelinex'],
+add('C10', ['C10', 'C10b', 'C10c', 'C10X', 'C10XPost', 'C10XTree', 'C10XToc', 'C10XTocAttr', 'C10XLate', 'C10XRaw', 'C10XC', 'C10XBlock', 'C10XCAll', 'C10XFn', 'C10XFnLeak', 'C10XAll', 'C10XFenceBlock', 'C10XCAllF', 'C09'], PIPE + ['corr.pipelinex'],
     'Lean 4 proofs: input cannot forge placeholders (normalisation strips STX/ETX), post-conditions of every restore step, placeholder invariants of the inline model on the pattern subset that cannot leak; the model leaks where the code leaks (kernel-checked)',
     'PARTIAL: link/reference/image/autolink/html/entity patterns and extensions are outside the proved subset (F-C10-1/2/3 live there).')
 add('C11', ['C11', 'C11Census', 'C11X'], ['corr.instancex'],
